@@ -188,6 +188,13 @@ def wbs_spec(draw, max_tasks=8, min_tasks=0, hier_cycles=False, min_start=True, 
             pair = st.one_of(pair, pair, st.tuples(st.sampled_from(summaries), st.sampled_from(list(ids))),
                              st.tuples(st.sampled_from(list(ids)), st.sampled_from(summaries)))
         pairs = draw(st.lists(pair, max_size=2 * n))
+        if summaries and summary_links and draw(st.booleans()):
+            # steer: a summary gets a predecessor, one of its descendants gets another one (own + inherited prerequisites)
+            S = draw(st.sampled_from(summaries))
+            inside = [t for t in ids if S in ancs[t]]
+            outside = [t for t in ids if t != S and t not in inside and t not in ancs[S]]
+            if inside and outside:
+                pairs = pairs + [(draw(st.sampled_from(outside)), S), (draw(st.sampled_from(outside)), draw(st.sampled_from(inside)))]
         for u, v in pairs:
             if u == v or u in ancs[v] or v in ancs[u]:
                 continue
